@@ -11,6 +11,9 @@
  *
  * script line:  <id> TAB <argv, space separated> TAB <presets> TAB <events, comma separated>
  *   event  D<hex> datagram for recv()      C<hex> CAN frame for read() on the CAN socket
+ *          Dx<count>[/<off>.<width>.<delta>]*:<hex>   the datagram <count> times; before the i-th delivery the
+ *          big-endian number of <width> bytes at <off> is advanced by i*<delta> (sequence numbers, timestamps).
+ *          Only the first three and the last two deliveries of a repeated event are logged.
  * result line:  <id> TAB <status> TAB <effects> TAB <report>
  *   status ok           the script was consumed and the program asked for more (receive loop alive)
  *          returned:<n> main returned before the script was consumed
@@ -37,9 +40,9 @@
 int ex_main(int argc, char** argv);
 void vt_presets(const char* presets);       /* provided per program: sets mode variables that have no usable option */
 
-#define MAXEV 400
-typedef struct { char kind; int len; uint8_t data[2048]; } Event;
-static Event g_ev[MAXEV]; static int g_nev, g_pos;
+#define MAXEV 1200
+typedef struct { char kind; int len; uint8_t data[2048]; int rep, nst; struct { int off, w; long long delta; } st[8]; } Event;
+static Event g_ev[MAXEV]; static int g_nev, g_pos, g_rep, g_quiet;
 static int g_timer_armed, g_timer_periodic, g_expiry_budget, g_timer_fd = -1, g_can_fd = -1, g_net_fd = -1;
 static int g_next_fd = 100;
 
@@ -50,7 +53,7 @@ static void elog(const char* fmt, ...) __attribute__((format(printf, 1, 2)));
 #include <stdarg.h>
 static void elog(const char* fmt, ...)
 {
-    if (*g_loglen > LOGSZ - 600) return;
+    if (*g_loglen > LOGSZ - 600 || g_quiet) return;
     va_list ap; va_start(ap, fmt);
     int n = vsnprintf(g_log + *g_loglen, LOGSZ - *g_loglen, fmt, ap);
     va_end(ap);
@@ -66,6 +69,52 @@ static void end_of_script(void)
     fflush(stdout);
     _exit(0);
 }
+
+/* next event of the script (a repeated event is materialised per delivery) */
+static int have_event(void) { return g_pos < g_nev; }
+static Event* next_event(void)
+{
+    static Event cur;
+    Event* e = &g_ev[g_pos];
+    if (e->rep <= 1) { g_pos++; g_quiet = 0; return e; }
+    cur.kind = e->kind; cur.len = e->len;
+    memcpy(cur.data, e->data, (size_t)e->len);
+    for (int k = 0; k < e->nst; k++) {
+        int off = e->st[k].off, w = e->st[k].w;
+        if (off + w > e->len || w > 8) continue;
+        unsigned long long v = 0;
+        for (int i = 0; i < w; i++) v = (v << 8) | cur.data[off + i];
+        v += (unsigned long long)e->st[k].delta * (unsigned long long)g_rep;
+        for (int i = w - 1; i >= 0; i--) { cur.data[off + i] = (uint8_t)v; v >>= 8; }
+    }
+    g_quiet = g_rep >= 3 && g_rep < e->rep - 2;
+    if (++g_rep >= e->rep) { g_rep = 0; g_pos++; }
+    return &cur;
+}
+
+/* Loop-iteration invariant: where the program waits for its next input, its stack pointer must not keep
+ * sinking from one wait to the next (an alloca or a recursion per datagram exhausts the stack on a long
+ * enough conversation, however short the explored one is). Three strict decreases at one call site
+ * without an increase in between are reported. */
+static void sp_probe(void* site, void* frame)
+{
+    static struct { void* site; uintptr_t first, last; int down, told; } t[16];
+    uintptr_t fa = (uintptr_t)frame;
+    for (int i = 0; i < 16; i++) {
+        if (t[i].site == NULL) { t[i].site = site; t[i].first = t[i].last = fa; return; }
+        if (t[i].site != site) continue;
+        if (fa < t[i].last) t[i].down++;
+        else if (fa > t[i].last) t[i].down = 0;
+        t[i].last = fa;
+        if (t[i].down >= 3 && !t[i].told) {
+            int q = g_quiet; g_quiet = 0;
+            elog("STACKGROWTH %ld bytes over %d waits;", (long)(t[i].first - fa), t[i].down);
+            g_quiet = q; t[i].told = 1;
+        }
+        return;
+    }
+}
+#define SP_PROBE() sp_probe(__builtin_return_address(0), __builtin_frame_address(0))
 
 /* ---------------- the seam ---------------- */
 int vt_socket(int domain, int type, int protocol)
@@ -104,8 +153,9 @@ unsigned vt_sleep(unsigned s) { (void)s; return 0; }
 ssize_t vt_recv(int fd, void* buf, size_t n, int flags)
 {
     (void)fd; (void)flags;
-    if (g_pos >= g_nev) end_of_script();
-    Event* e = &g_ev[g_pos++];
+    SP_PROBE();
+    if (!have_event()) end_of_script();
+    Event* e = next_event();
     size_t c = (size_t)e->len < n ? (size_t)e->len : n;
     memcpy(buf, e->data, c);
     if (g_timer_periodic) { g_expiry_budget = 2; g_timer_armed = g_timer_armed || g_expiry_budget > 0; }
@@ -118,11 +168,12 @@ ssize_t vt_recvfrom(int fd, void* buf, size_t n, int flags, struct sockaddr* a, 
 int vt_poll(struct pollfd* fds, nfds_t nfds, int timeout)
 {
     (void)timeout;
+    SP_PROBE();
     for (nfds_t i = 0; i < nfds; i++) fds[i].revents = 0;
     if (g_timer_armed) {
         for (nfds_t i = 0; i < nfds; i++) if (fds[i].fd == g_timer_fd) { fds[i].revents = POLLIN; return 1; }
     }
-    if (g_pos >= g_nev) end_of_script();
+    if (!have_event()) end_of_script();
     for (nfds_t i = 0; i < nfds; i++) if (fds[i].fd != g_timer_fd) { fds[i].revents = POLLIN; return 1; }
     end_of_script();
     return -1;
@@ -138,8 +189,9 @@ ssize_t vt_read(int fd, void* buf, size_t n)
         return 8;
     }
     if (fd == g_can_fd) {
-        if (g_pos >= g_nev) end_of_script();
-        Event* e = &g_ev[g_pos++];
+        SP_PROBE();
+        if (!have_event()) end_of_script();
+        Event* e = next_event();
         size_t c = (size_t)e->len < n ? (size_t)e->len : n;
         memcpy(buf, e->data, c);
         return (ssize_t)c;
@@ -157,6 +209,7 @@ ssize_t vt_write(int fd, const void* buf, size_t n)
 ssize_t vt_sendto(int fd, const void* buf, size_t n, int flags, const struct sockaddr* a, socklen_t l)
 {
     (void)fd; (void)flags; (void)a; (void)l;
+    SP_PROBE();
     elog("PKT "); elog_hex(buf, n); elog(";");
     return (ssize_t)n;
 }
@@ -170,6 +223,18 @@ static void parse_events(char* s)
     for (char* tok = strtok(s, ","); tok && g_nev < MAXEV; tok = strtok(NULL, ",")) {
         Event* e = &g_ev[g_nev++];
         e->kind = tok[0];
+        e->rep = 1; e->nst = 0;
+        if (tok[1] == 'x') {
+            char* q = tok + 2;
+            e->rep = (int)strtol(q, &q, 10);
+            while (*q == '/' && e->nst < 8) {
+                e->st[e->nst].off = (int)strtol(q + 1, &q, 10);
+                e->st[e->nst].w = (int)strtol(q + 1, &q, 10);
+                e->st[e->nst].delta = strtoll(q + 1, &q, 10);
+                e->nst++;
+            }
+            tok = q;        /* at ':' */
+        }
         size_t hl = strlen(tok + 1);
         e->len = (int)(hl / 2);
         if (e->len > (int)sizeof e->data) e->len = sizeof e->data;
